@@ -40,6 +40,8 @@ def corpus():
         "cli mode=users dur=%s conc=1 bodyms=1 maxit=6 failevery=2 failkind=panicstringer expectlimit=1" % hx("300ms"),              # C07k: a panic value whose String method panics
         "cli mode=users dur=%s conc=1 bodyms=1 maxit=6 failevery=2 failkind=panicstringer logfmt=json expectlimit=1" % hx("300ms"),  # … with f1's own JSON logger
         "cli mode=users dur=%s conc=2 bodyms=1 maxit=8 failevery=3 failkind=panicnilptr logfmt=json expectlimit=1" % hx("300ms"),
+        "cli mode=users dur=%s conc=1 bodyms=0 maxit=2600 failevery=1 failkind=panicstr expectlimit=1" % hx("20s"),      # C07l: the 2600th panic on a worker is a failure like the first
+        "cli mode=users dur=%s conc=2 bodyms=0 maxit=4200 failevery=2 failkind=panicint expectlimit=1" % hx("20s"),
         "cli mode=users dur=%s conc=2 bodyms=5 failevery=2 failkind=panicerr logfile=bad" % hx("200ms"),
         "cli mode=users dur=%s conc=2 bodyms=5 failevery=3 failkind=errorf logfile=bad" % hx("200ms"),
         "cli mode=users dur=%s conc=1 bodyms=2 maxit=8 failevery=2 failkind=nilmap combine=1 expectlimit=1" % hx("300ms"),
